@@ -34,7 +34,8 @@ ENC_CONTENT = [(E, 'ber.encoder::BooleanEncoder.encodeValue'), (E, 'cer.encoder:
                (E, 'ber.encoder::ObjectIdentifierEncoder.encodeValue'),
                (E, 'ber.encoder::SequenceEncoder.encodeValue[value-object]'),
                (E, 'ber.encoder::OctetStringEncoder.encodeValue[value-object]'),
-               (E, 'ber.encoder::SequenceOfEncoder._encodeComponents[value-object]')]
+               (E, 'ber.encoder::SequenceOfEncoder._encodeComponents[value-object]'),
+               (E, 'ber.encoder::BitStringEncoder.encodeValue[value-object]')]
 INTS = [(IN, 'compat.integer::to_bytes[signed]'), (IN, 'compat.integer::to_bytes[unsigned,length]'),
         (IN, 'compat.integer::from_bytes[signed]'), (IN, 'compat.integer::from_bytes[unsigned]')]
 READS = [(ST, 'codec.streaming::readFromStream[complete]'), (ST, 'codec.streaming::readFromStream[partial]'),
@@ -363,6 +364,32 @@ PROPS['C04']['contracts'] = PROPS['C04']['contracts'] + CHOICE[:1] + CHOICE[3:]
 PROPS['C03']['contracts'] = PROPS['C03']['contracts'] + CHOICE[3:]
 PROPS['C11']['contracts'] = PROPS['C11']['contracts'] + [(UN, 'ber.decoder::AnyPayloadDecoder.valueDecoder[untagged,complete]')]
 
+SELECT = [(D, 'ber.decoder::SingleItemDecoder.__call__@stGetValueDecoderByTag[complete]'),
+          (D, 'ber.decoder::SingleItemDecoder.__call__@stGetValueDecoderByAsn1Spec[complete]'),
+          (D, 'ber.decoder::SingleItemDecoder.__call__@stGetValueDecoderByAsn1Spec[complete]+tagmap'),
+          (D, 'ber.decoder::SingleItemDecoder.__call__@stTryAsExplicitTag[complete]')]
+PROPS['C13']['contracts'] = PROPS['C13']['contracts'] + SELECT
+PROPS['C15']['contracts'] = PROPS['C15']['contracts'] + SELECT
+PROPS['C16']['contracts'] = PROPS['C16']['contracts'] + SELECT[:1] + SELECT[3:]
+PROPS['C10']['contracts'] = PROPS['C10']['contracts'] + SELECT[1:3]
+PROPS['C13']['level_text'] += (' Accept/reject in the decoder is a discharged contract on the codec-selection states of the '
+                               'real SingleItemDecoder.__call__: under a guiding type a value codec is chosen only when the tags '
+                               'on the wire equal the type\'s tag set or are listed in its tag map; anything else is unwrapped '
+                               'only if it is a constructed, non-UNIVERSAL element (explicit tag), else it is the error state.')
+_CP = 'ber.decoder::ConstructedPayloadDecoderBase.'
+RECORDS = [(D, _CP + 'valueDecoder@record-components'), (D, _CP + 'indefLenValueDecoder@record-components'),
+           (D, _CP + 'valueDecoder@collection-components'), (D, _CP + 'indefLenValueDecoder@collection-components'),
+           (D, _CP + 'valueDecoder@result'), (D, _CP + 'indefLenValueDecoder@result')]
+PROPS['C10']['contracts'] = PROPS['C10']['contracts'] + RECORDS
+PROPS['C09']['contracts'] = PROPS['C09']['contracts'] + RECORDS[:4]
+PROPS['C01']['contracts'] = PROPS['C01']['contracts'] + RECORDS[:4]
+PROPS['C14']['contracts'] = PROPS['C14']['contracts'] + RECORDS[4:]
+PROPS['C10']['level_text'] += (' Completeness is a discharged contract on the component loops of the real constructed decoder '
+                               '(definite and indefinite): for any schema (any number of components, any OPTIONAL/DEFAULT '
+                               'pattern) a normal exit implies every mandatory component was assigned in this call, SEQUENCE '
+                               'positions strictly increase, SEQUENCE OF members are the elements in wire order, and the value '
+                               'is handed out only if its own size/inner-type constraints hold (NamedTypes lookups, '
+                               'setComponentByPosition and the recursive decodeFun are assumed models).')
 for _p in list(PROPS):
     NOT_CLAIMED.pop(_p, None)
 
